@@ -397,8 +397,10 @@ def chain_families(rng, quick):
         for weighted in ((rng.random() < 0.5,) if quick else (False, True)):
             out.append(("diamonds", rep(g_bundle(2, und(), weighted), rng.randint(lo, hi))))
     # (b) 3^K tied paths (not powers of two: inexact in double precision beyond 2^53; 3^81 > 3.4e38)
-    for lo, hi in ([(36, 45)] if quick else [(12, 16), (36, 45), (60, 70), (82, 90), (120, 130)]):
-        out.append(("triple-routes", rep(g_bundle(3, und(), rng.random() < 0.5), rng.randint(lo, hi))))
+    #     (3^16 > 2^24: single precision is inexact already on a chain the matrix-power routine gets)
+    for lo, hi in ([(16, 20), (36, 45)] if quick else [(16, 20), (36, 45), (60, 70), (82, 90), (120, 130)]):
+        # (one-way chains: no closed walks, the matrix-power routine's walk counts ARE the path counts)
+        out.append(("triple-routes", rep(g_bundle(3, rng.random() < 0.4, rng.random() < 0.5), rng.randint(lo, hi))))
     # (c) long paths: node counts beyond int8 / uint8 (and int16-sized products n*n)
     for lo, hi in ([(130, 150), (257, 270)] if quick else [(128, 129), (130, 160), (200, 256), (257, 300), (330, 400)]):
         u = und()
@@ -408,16 +410,22 @@ def chain_families(rng, quick):
         c = [(g_clique(rng.randint(6, 9)), 0)]
         p = rep(g_edge(True), rng.randint(lo, hi))
         out.append(("clique+path", c + p if rng.random() < 0.5 else p + c))
-    # (e) lengths b * 2^e, e sweeping -13..13 (1e-4 .. 1e4) along a chain of 100+ hops with ties
-    for _ in range(1 if quick else 4):
+    if not quick:
+        # ... and the largest double (23^227 > 1.8e308): every routine must still return the exact values
+        out.append(("clique+path-walks-beyond-1e308", [(g_clique(24), 0)] + rep(g_edge(True), rng.randint(230, 240))))
+    # (e) lengths b * 2^e, e sweeping -13..13 (1e-4 .. 1e4) along a chain of 100+ hops with ties and
+    #     near-ties; every sweep has rising and falling stretches (a short length after long ones is
+    #     where a narrow or tolerant distance comparison goes wrong), whatever the direction of travel
+    for sweep in ([rng.choice(["hill", "valley"]), rng.choice(["zigzag", "random"])] if quick
+                  else ["hill", "valley", "zigzag", "random", "hill", "valley"]):
         u = und()
         pool_ = [g_edge(u, 1), g_edge(u, 3), g_bundle(2, u, True), g_bundle(3, u, True),
                  _und(3, [(0, 1, 1), (1, 2, 1), (0, 2, 2)]), _und(3, [(0, 1, 1), (1, 2, 2), (0, 2, 2)])]
         k = rng.randint(60, 90)
-        sweep = rng.choice(["up", "down", "zigzag", "random"])
         ch = []
         for i in range(k):
-            e = {"up": -13 + (26 * i) // (k - 1), "down": 13 - (26 * i) // (k - 1),
+            tri = abs(26 - (52 * i) // (k - 1))                      # 26 .. 0 .. 26
+            e = {"hill": 13 - tri, "valley": tri - 13,
                  "zigzag": 13 if i % 2 else -13, "random": rng.randint(-13, 13)}[sweep]
             ch.append((rng.choice(pool_), e))
         out.append(("length-sweep-" + sweep, ch))
@@ -480,6 +488,8 @@ def chain_jobs(rng, name, chain, bin_budget):
         # the matrix-power routine costs diam products of n x n matrices (and forms the number of
         # WALKS of every length <= diam, at most deg^diam)
         slow = float(n) ** 3 * diam > bin_budget or diam * math.log10(max(deg, 2)) > 290
+        if name.endswith("beyond-1e308"):
+            slow = False
         if slow:
             fns.remove("betweenness_bin")
     jobs = []
@@ -487,7 +497,7 @@ def chain_jobs(rng, name, chain, bin_budget):
         jobs.append(dict(fn=fn, kind="chain", src="scale-" + name, n=n, lib=lib, seq=seq,
                          dtype=arg_dtype(fn, variant[0]), draw=variant[0], layout=variant[1],
                          via=via if fn.endswith("_wei") else "",
-                         ref=not (slow and fn == "edge_betweenness_bin")))
+                         ref=not ((slow or name.endswith("beyond-1e308")) and fn == "edge_betweenness_bin")))
     return jobs
 
 
@@ -495,7 +505,7 @@ def build_scale_jobs(ctx):
     rng = random.Random("C08-scale-%s" % ctx.seed)
     jobs = []
     for name, chain in chain_families(rng, ctx.quick):
-        jobs += chain_jobs(rng, name, chain, 2e8 if ctx.quick else 4e9)
+        jobs += chain_jobs(rng, name, chain, 6e8 if ctx.quick else 4e9)
     return jobs
 
 
@@ -533,7 +543,8 @@ def run(ctx):
     if bad:
         raise core.MachineryError("scale-regime records outside the spec's domain: %r" % bad[:3])
     ctx.extra["scale_regime"] = dict(
-        records=len(sjobs), timeouts=sum(1 for r in srecs if r.get("timeout")),
+        records=len(sjobs), no_return_within_240s=["%s(n=%d) %s" % (j["src"], j["n"], j["fn"])
+                                                    for j, r in zip(sjobs, srecs) if r.get("timeout")],
         max_nodes=max(j["n"] for j in sjobs),
         families=sorted(set(j["src"] for j in sjobs)),
         not_given_to_betweenness_bin=sorted(set("%s(n=%d)" % (j["src"], j["n"]) for j in sjobs
